@@ -6,7 +6,7 @@ import (
 	"verif/harness/world"
 )
 
-func c16Req(t *rapid.T, label string, concurrent bool) *world.Req {
+func C16Req(t *rapid.T, label string, concurrent bool) *world.Req {
 	u := Pick(t, label+"-url", "http://a.test/c16/a", "http://a.test/c16/a", "http://a.test/c16/b")
 	rq := &world.Req{Method: "GET", URL: u}
 	if Pct(t, label+"-unsafe", 10) {
@@ -67,7 +67,7 @@ func C16(t *rapid.T) *world.Scenario {
 	sc := &world.Scenario{Prop: "C16", Backend: Pick(t, "backend", "mem", "mem", "fs")}
 	nw := rapid.IntRange(0, 3).Draw(t, "warm")
 	for i := 0; i < nw; i++ {
-		sc.Steps = append(sc.Steps, ReqStep(c16Req(t, "w"+itoa(int64(i)), false)))
+		sc.Steps = append(sc.Steps, ReqStep(C16Req(t, "w"+itoa(int64(i)), false)))
 		if Pct(t, "wsl"+itoa(int64(i)), 40) {
 			sc.Steps = append(sc.Steps, SleepStep(Pick(t, "wsd"+itoa(int64(i)), int64(1), 2, 61)))
 		}
@@ -77,7 +77,7 @@ func C16(t *rapid.T) *world.Scenario {
 		n := rapid.IntRange(1, 4).Draw(t, "n"+itoa(int64(ti)))
 		var th []*world.Req
 		for i := 0; i < n; i++ {
-			th = append(th, c16Req(t, "t"+itoa(int64(ti))+"-"+itoa(int64(i)), true))
+			th = append(th, C16Req(t, "t"+itoa(int64(ti))+"-"+itoa(int64(i)), true))
 		}
 		sc.Threads = append(sc.Threads, th)
 	}
